@@ -716,6 +716,25 @@ macro_rules! seed_fixed_harness {
         }
     )*};
 }
+macro_rules! seed_fixed_cap_harness {
+    ($($name:ident = $p:expr, $choice:expr;)*) => {$(
+        crate::verif_harness_realfmt! {
+            #[kani::stub(pbkdf2::pbkdf2, pbkdf2_stub)]
+            #[kani::stub(crate::mnemonic::wordlist::Wordlist::word, crate::mnemonic::wordlist::Wordlist::__verif_word)]
+            #[kani::stub(crate::mnemonic::wordlist::for_language, crate::mnemonic::wordlist::__verif::__verif_for_language)]
+            #[kani::stub(alloc::string::String::new, crate::__verif_common::string_new_stub)]
+            #[kani::stub(alloc::string::String::push, crate::__verif_common::string_push_stub)]
+            #[kani::stub(alloc::string::String::push_str, crate::__verif_common::string_push_str_stub)]
+            #[kani::unwind(28)]
+            fn $name() { check_seed_with::<$p>($choice) }
+        }
+    )*};
+}
+seed_fixed_cap_harness! {
+    c02_cap_empty = 0, [];
+    c02_cap_ascii = 1, [0];
+    c02_cap_accent = 1, [1];
+}
 seed_fixed_harness! {
     c02_fixed_empty = 0, [];
     c02_fixed_ascii = 1, [0];
